@@ -26,6 +26,7 @@ EXPLANATION = (
     "enters the copy in the memo, re-creates every dynamic class and rebinds copied instances (groups, systems) to the "
     "copy's classes; LazyRegistry initialises exactly like UnitRegistry. Does not decide equality after a round trip for "
     "concrete objects.")
+EXPLANATION += ' Also decided (rules added after the second round of seeded changes): _unpickle parses each unit name unconditionally (no guard derived from a cache or membership test).'
 
 
 def _init_assignments(init):
